@@ -32,18 +32,21 @@ type cliCase struct {
 	Rows  []string `json:"rows"`
 	// More: further alignments of the same input file (multi-dataset Phylip, read with -p, as produced
 	// by goalign build seqboot); every clause is judged per alignment
-	More   [][]string `json:"more,omitempty"`
-	Phylip bool       `json:"phylip"`
-	Char   string     `json:"char"` // value of --char: GAP, -, MAJ or characters; "" = flag absent (default GAP)
-	P      int        `json:"p"`
-	Q      int        `json:"q"`
-	NoCut  bool       `json:"no_cutoff_flag"` // -c absent: default 0
-	Ends   bool       `json:"ends"`
-	IC     bool       `json:"ignore_case"`
-	IG     bool       `json:"ignore_gaps"`
-	IN     bool       `json:"ignore_n"`
-	Rev    bool       `json:"reverse"`
-	Quiet  bool       `json:"quiet"`
+	More    [][]string `json:"more,omitempty"`
+	Phylip  bool       `json:"phylip"`
+	Layout  cli.Layout `json:"layout"`   // presentation of a FASTA input (wrapped lines, blocks, CRLF ...)
+	OutFile bool       `json:"out_file"` // -o <file> instead of standard output
+	Stale   bool       `json:"stale"`    // the output and position files exist before, with longer stale content
+	Char    string     `json:"char"`     // value of --char: GAP, -, MAJ or characters; "" = flag absent (default GAP)
+	P       int        `json:"p"`
+	Q       int        `json:"q"`
+	NoCut   bool       `json:"no_cutoff_flag"` // -c absent: default 0
+	Ends    bool       `json:"ends"`
+	IC      bool       `json:"ignore_case"`
+	IG      bool       `json:"ignore_gaps"`
+	IN      bool       `json:"ignore_n"`
+	Rev     bool       `json:"reverse"`
+	Quiet   bool       `json:"quiet"`
 }
 
 var reStart = regexp.MustCompile(`number of start [^=\n]*=(\d+)`)
@@ -98,6 +101,11 @@ func genCLI(t *rapid.T) cliCase {
 	} else {
 		c.Phylip = rapid.IntRange(0, 3).Draw(t, "phylip1") == 2
 	}
+	if !c.Phylip {
+		c.Layout = cli.DrawLayout(t)
+	}
+	c.OutFile = rapid.Bool().Draw(t, "outfile")
+	c.Stale = rapid.IntRange(0, 2).Draw(t, "stale") == 1
 	hint := len(c.Rows)
 	if c.Sub == "seqs" {
 		hint = len(c.Rows[0])
@@ -160,8 +168,13 @@ func TestCLI(t *testing.T) {
 			}
 			in = cli.TempFile(dir, ".phy", sb.String())
 		} else {
-			in = cli.TempFile(dir, ".fa", cli.Fasta(rows))
+			in = cli.TempFile(dir, ".fa", cli.FastaLayout(rows, c.Layout))
+			if !c.Layout.Plain() {
+				o.Class("input-layout=not-plain")
+			}
 		}
+		outPath := filepath.Join(dir, filepath.Base(in)+".out")
+		defer os.Remove(outPath)
 		posK := filepath.Join(dir, filepath.Base(in)+".kept")
 		posR := filepath.Join(dir, filepath.Base(in)+".rm")
 		defer os.Remove(in)
@@ -190,7 +203,32 @@ func TestCLI(t *testing.T) {
 			o.Class("input=phylip")
 		}
 		o.Class("alignments-in-file=%d", len(all))
+		if c.OutFile {
+			args = append(args, "-o", outPath)
+			o.Class("output=file")
+		}
+		if c.Stale {
+			// files that exist already must be replaced, not overwritten in part
+			o.Class("stale-output-files")
+			if c.OutFile {
+				cli.StaleFile(outPath, 60)
+			}
+			if c.Sub == "sites" {
+				cli.StaleFile(posK, 80)
+				cli.StaleFile(posR, 80)
+			}
+		}
 		r := cli.Run("", args...)
+		if c.OutFile && r.Exit == 0 {
+			b, e := os.ReadFile(outPath)
+			if e != nil {
+				return o, fmt.Errorf("goalign %v: the output file was not written: %v", args, e)
+			}
+			if strings.TrimSpace(r.Stdout) != "" {
+				return o, fmt.Errorf("goalign %v: output on stdout although -o was given: %q", args, r.Stdout)
+			}
+			r.Stdout = string(b)
+		}
 		isGap := c.Char == "" || c.Char == "GAP" || c.Char == "-"
 		o.Class("cmd=clean %s", c.Sub)
 		o.Class("alphabet=%s", c.Alpha)
